@@ -24,6 +24,19 @@ INVERSES = {
 }
 
 
+def _table_rows(it: ast.AST, mod: Module) -> Optional[List[ast.AST]]:
+    """rows of a literal table: a tuple / list display, or a module-level name bound once to one"""
+    if isinstance(it, (ast.Tuple, ast.List)):
+        return list(it.elts)
+    if isinstance(it, ast.Name):
+        hits = [st for st in mod.tree.body if isinstance(st, (ast.Assign, ast.AnnAssign)) and getattr(st, "value", None) is not None
+                and isinstance((st.targets[0] if isinstance(st, ast.Assign) else st.target), ast.Name)
+                and (st.targets[0] if isinstance(st, ast.Assign) else st.target).id == it.id]
+        if len(hits) == 1 and isinstance(hits[0].value, (ast.Tuple, ast.List)):
+            return list(hits[0].value.elts)
+    return None
+
+
 def hook_registrations(mod: Module) -> Dict[str, Dict[str, Tuple[str, ast.AST]]]:
     """type name -> {'structure': (function name, node), 'unstructure': (...)} for module-level converter.register_*_hook(T, fn)."""
     out: Dict[str, Dict[str, Tuple[str, ast.AST]]] = {}
@@ -35,12 +48,13 @@ def hook_registrations(mod: Module) -> Dict[str, Dict[str, Tuple[str, ast.AST]]]
                 kind = "structure" if c.func.attr == "register_structure_hook" else "unstructure"
                 out.setdefault(t, {})[kind] = (c.args[1].id, c)
             elif len(c.args) == 2 and all(isinstance(a, ast.Name) for a in c.args) and isinstance(parent(enclosing_stmt(c)), ast.For) \
-                    and isinstance(parent(enclosing_stmt(c)).target, ast.Tuple) and isinstance(parent(enclosing_stmt(c)).iter, (ast.Tuple, ast.List)):  # type: ignore[union-attr]
-                # table-driven registration: `for t, s, u in ((UUID, structure_uuid, unstructure_uuid), ...): register(t, s)`
+                    and isinstance(parent(enclosing_stmt(c)).target, ast.Tuple) and _table_rows(parent(enclosing_stmt(c)).iter, mod) is not None:  # type: ignore[union-attr]
+                # table-driven registration: `for t, s, u in ((UUID, structure_uuid, unstructure_uuid), ...): register(t, s)` - the table
+                # written in the loop header or bound once to a module-level name
                 loop = parent(enclosing_stmt(c))
                 names = [e.id if isinstance(e, ast.Name) else None for e in loop.target.elts]  # type: ignore[union-attr]
                 kind = "structure" if c.func.attr == "register_structure_hook" else "unstructure"
-                for row in loop.iter.elts:  # type: ignore[union-attr]
+                for row in _table_rows(loop.iter, mod) or []:  # type: ignore[union-attr]
                     if not (isinstance(row, (ast.Tuple, ast.List)) and len(row.elts) == len(names)):
                         raise AnalysisError(f"hook registration table row `{norm(row)[:60]}` does not match the loop target")
                     env = dict(zip(names, row.elts))
